@@ -18,7 +18,8 @@ MODEL_NAME = "c05"
 TRUSTED_BASE = [
     "Coq 8.16.1 kernel (coqc); vm_compute only in the Examples; no native_compute",
     "extraction (ExtrOcamlBasic only) + ocaml/driver_body.ml + OCaml 4.13.1",
-    "hand-written model coq/theories/Model/Sec.v (sign_cam / sign_denm / sign_other, verify_msg, net_step), tied to N real "
+    "hand-written model coq/theories/Model/Sec.v (sign_cam / sign_denm / sign_other, verify_msg, net_step) and Model/SecListen.v "
+    "(verify_msg_lo, net_step_cfg: receivers configured without a sign service), tied to N real "
     "stations (Router + SignService + VerifyService + CertificateLibrary, real P-256 backend) by differential execution",
     "completeness of ECDSA (a signature made with a key verifies under it) is the hypothesis of the acceptance theorems; "
     "the extracted model is run with the oracle 'every signature verifies' and compared with the real ECDSA on honest traffic",
@@ -63,7 +64,9 @@ class Scenario:
         """opts (audit round): pos = position of all stations and centre of the DENM area; apps = {station: ITS-AID list of
         its ticket}; ssp = tickets carry service specific permissions; aa_of = {station: 1 | 2} issuing authority of the
         station's ticket (two authorities under the common root); knows_aa = {station: [1, 2]} authorities configured at the
-        station (default: both when aa_of is given)"""
+        station (default: both when aa_of is given); listen_only = stations configured WITHOUT a sign service
+        (VerifyService(backend, library) and Router(mib, verify_service=...): road-side monitor / listen-only station; no own
+        ticket, never transmits) - 'every station trusting the same root' does not ask the receiver to be a sender"""
         from .c03 import Net, its_now_s
         self.ctx = ctx
         self.net = Net(ctx.rng)
@@ -105,21 +108,30 @@ class Scenario:
                 tickets[i] = (sc.make_cert(self.net.pki, tbs, tickets[i][0]["issuer"], iss[1]), tickets[i][1])
         self.aa_of = [aa_of.get(i, 1) for i in range(n)]
         self.aas = aas
+        self.listen_only = sorted(set(opts.get("listen_only", ())))
         for i in range(n):
+            lo = i in self.listen_only
             known = [tickets[k] + (aas[self.aa_of[k]],) for k in preload.get(i, [])]
             ka = opts.get("knows_aa", {}).get(i, sorted(aas))
-            r = self.net.station(0x0A0B0C0D2000 + i, own=tickets[i], known=known, reg=self.reg,
+            r = self.net.station(0x0A0B0C0D2000 + i, own=None if lo else tickets[i], known=known, reg=self.reg,
                                  aas=[(aas[a], self.net.root) for a in ka], own_issuer=aas[self.aa_of[i]],
-                                 ego=opts.get("pos_of", {}).get(i, self.pos))
+                                 ego=opts.get("pos_of", {}).get(i, self.pos), with_sign_service=not lo)
+            if lo:
+                r["router"].sign_service = None      # Router(mib, verify_service=...)
             s = Sta()
-            s.i, s.r, s.own, s.joined = i, r, tickets[i], False
+            s.i, s.r, s.own, s.joined, s.lo = i, r, tickets[i], False, lo
             s.knows_aa = list(ka)
-            s.h8 = sc.hashed_id8(tickets[i][0])
+            s.h8 = b"" if lo else sc.hashed_id8(tickets[i][0])
             s.confirms = []
+            s.verify_exc = None
             orig = r["st"].verify.verify
 
             def wrapped(req, orig=orig, s=s):
-                c = orig(req)
+                try:
+                    c = orig(req)
+                except Exception as e:  # noqa: BLE001  (the router discards the packet; the oracle reports why)
+                    s.verify_exc = f"{type(e).__name__}: {e}"
+                    raise
                 s.confirms.append(c)
                 return c
             r["st"].verify.verify = wrapped
@@ -152,13 +164,14 @@ class Scenario:
 def feed(s: Sta, frame: bytes):
     n_c, n_g = len(s.confirms), len(s.r["got"])
     exc = None
+    s.verify_exc = None
     with contextlib.redirect_stdout(io.StringIO()):
         try:
             s.r["router"].gn_data_indicate(frame)
         except Exception as e:  # noqa: BLE001
             exc = type(e).__name__
     confirms = s.confirms[n_c:]
-    return confirms[0] if confirms else None, s.r["got"][n_g:], exc
+    return confirms[0] if confirms else None, s.r["got"][n_g:], exc or s.verify_exc
 
 
 def send(ctx, sc_: Scenario, i: int, kind: str, data: bytes, t_ms: int, tag: str):
@@ -285,7 +298,8 @@ def send(ctx, sc_: Scenario, i: int, kind: str, data: bytes, t_ms: int, tag: str
         expect_accept = (carries and chain) or sc_.known[j][i]
         ok = confirm is not None and confirm.report.value == 0
         ctx.count(1, f"recv:{kind}:{'cert' if carries else 'digest'}:{'known' if sc_.known[j][i] else 'unknown'}"
-                     f"{'' if chain else ':issuer_unknown'}")
+                     f"{'' if chain else ':issuer_unknown'}{':listen_only' if r.lo else ''}"
+                     f"{':p2pcd_fields' if r.lo and fields & {'inlineP2pcdRequest', 'requestedCertificate'} else ''}")
         if confirm is None:
             results.append(["crash"])
         else:
@@ -357,10 +371,14 @@ def compare_model(ctx, sc_: Scenario, tag):
     if ctx.model is None or not ctx.model.available:
         return
     reg = sc_.reg
-    args = reg.header([], mode=1) + [len(sc_.sta), len(sc_.model_ops)]
+    if sc_.listen_only:
+        # SecListen.net_step_cfg: the listed stations verify with verify_msg_lo (no sign service, no notification)
+        args = reg.header([], mode=1) + [len(sc_.sta)] + [int(x.lo) for x in sc_.sta] + [len(sc_.model_ops)]
+    else:
+        args = reg.header([], mode=1) + [len(sc_.sta), len(sc_.model_ops)]
     for i, op, rcv in sc_.model_ops:
         args += [i] + list(op) + [len(rcv)] + list(rcv)
-    mod = sc.parse_net(ctx.model.call(2, args), len(sc_.sta))
+    mod = sc.parse_net(ctx.model.call(3 if sc_.listen_only else 2, args), len(sc_.sta))
     if len(mod) != len(sc_.impl):
         ctx.mismatch("schedule length", {"scenario": tag}, len(mod), len(sc_.impl))
         return
@@ -399,8 +417,8 @@ def run_schedule(ctx, n, preload, joins, events, tag, ticket_specs=None, opts=No
         for j, tj in joins.items():
             if tj <= t:
                 sc_.sta[j].joined = True
-        if not sc_.sta[i].joined:
-            continue
+        if not sc_.sta[i].joined or sc_.sta[i].lo:
+            continue            # a listen-only station never transmits
         send(ctx, sc_, i, kind, data, t0 + t, tag)
     compare_model(ctx, sc_, tag)
     return sc_
@@ -476,12 +494,20 @@ def random_schedule(ctx, k):
         joins[j] = rng.choice([0, rng.randrange(0, 4000), rng.randrange(0, 4000)])
     end = rng.choice([5000, 7000])
     ev = []
-    for j in range(n):
+    # 0-2 further stations that only listen (no sign service), cold or pre-loaded, present from the start or joining later
+    senders = n
+    monitors = list(range(n, n + rng.choice([0, 1, 1, 2])))
+    for j in monitors:
+        joins[j] = rng.choice([0, rng.randrange(0, 4000)])
+        if rng.random() < 0.4:
+            preload[j] = sorted(rng.sample(range(senders), rng.randrange(1, senders + 1)))
+    n += len(monitors)
+    for j in range(senders):
         kinds = rng.choice([("cam",), ("cam", "cam", "cam", "vam"), ("cam", "cam", "generic", "denm"), ("vam",)])
         ev += periodic(rng, j, joins[j] + rng.randrange(0, 300), end, kinds)
         for _ in range(rng.randrange(0, 3)):
             ev.append((rng.randrange(joins[j], end), j, rng.choice(["denm", "generic"]), bytes(rng.randrange(256) for _ in range(5))))
-    run_schedule(ctx, n, preload, joins, ev, f"random/{k}")
+    run_schedule(ctx, n, preload, joins, ev, f"random/{k}", opts={"listen_only": monitors} if monitors else None)
 
 
 # ---------------------------------------------------------------------------
@@ -525,8 +551,31 @@ def two_authorities(ctx, phases):
         join = 1000 + phase
         ev += [(t, 2, "cam", bytes([2, (t - join) // 400 % 256])) for t in range(join + 50, 5200, 400)]
         ev += [(join + 2000, 0, "denm", b"\x0d"), (join + 2200, 2, "generic", b"\x0e"), (join + 2300, 1, "vam", b"\x0f")]
-        run_schedule(ctx, 3, {}, {0: 0, 1: 0, 2: join}, ev, f"two_authorities/phase{phase}",
-                     opts={"aa_of": {0: 1, 1: 2, 2: 2}, "knows_aa": {0: [1, 2], 1: [1, 2], 2: [2]}})
+        # station 3: a monitor without sign service that holds both authorities - it hears (and must accept) the CAMs that carry
+        # requestedCertificate and the requests for the authority's certificate
+        run_schedule(ctx, 4, {}, {0: 0, 1: 0, 2: join, 3: phase}, ev, f"two_authorities/phase{phase}",
+                     opts={"aa_of": {0: 1, 1: 2, 2: 2}, "knows_aa": {0: [1, 2], 1: [1, 2], 2: [2], 3: [1, 2]}, "listen_only": [3]})
+
+
+def listen_only_receivers(ctx, phases):
+    """configurations: the receiver need not be a sender. Stations 3, 4, 5 are configured without a sign service
+    (VerifyService(backend, library), Router(mib, verify_service=...)): 3 knows root and AA only and listens from t=0, 4 is
+    pre-loaded with every ticket, 5 joins cold at an arbitrary time. The senders 0 (S), 1 (T) and the joiner 2 (J, whose
+    first transmission is a digest-signed generic message, so that S and T in turn have an unknown ticket pending) go through
+    all their P2PCD states - certificate / digest, with and without inlineP2pcdRequest - while the monitors listen: every
+    message that carries the certificate, or whose ticket the monitor knows, must be accepted and delivered there exactly as at
+    a full station, whatever optional header fields it carries. J sends VAMs in every other schedule."""
+    for q, phase in enumerate(phases):
+        jk = "vam" if q % 2 else "cam"
+        ev = [(t, 0, "cam", bytes([0, t // 250 % 256, 9])) for t in range(0, 3600, 250)]
+        ev += [(t, 1, "cam", bytes([1, t // 250 % 256, 8])) for t in range(90, 3600, 250)]
+        join = 1000 + phase
+        ev += [(join + 20, 2, "generic", b"\x21\x22")]
+        ev += [(t, 2, jk, bytes([2, (t - join) // 400 % 256])) for t in range(join + 310, 3600, 400)]
+        ev += [(join + 1300, 0, "denm", b"\x0d\x0e"), (join + 1400, 2, "generic", b"\x0a"), (join + 1500, 1, "vam", b"\x0b\x0c")]
+        late = join + 700 + (phase * 7) % 400
+        run_schedule(ctx, 6, {0: [1], 1: [0], 4: [0, 1, 2]}, {0: 0, 1: 0, 2: join, 3: 0, 4: 0, 5: late}, ev,
+                     f"listen_only_receivers/phase{phase}/{jk}", opts={"listen_only": [3, 4, 5]})
 
 
 POSITIONS = [(0, 0), (-337000000, -705000000), (-1, -1), (600000000, 1790000000), (-800000000, 1799999999),
@@ -580,7 +629,8 @@ def run(ctx):
     ctx.rule = ("N real stations (Router with security enabled + SignService + VerifyService, common root and AA, own tickets "
                 "covering ITS-AIDs 36, 37, 638, 139) on a virtual clock; schedules of CAM / VAM / DENM / generic messages with "
                 "seeded inter-message times (100 ms .. 1100 ms, including 999 / 1000 / 1001 ms), stations joining at seeded "
-                "times, receivers knowing only root and AA or pre-loaded with peer tickets. Every emitted packet is decoded "
+                "times, receivers knowing only root and AA or pre-loaded with peer tickets, receivers that are full stations or "
+                "configured without a sign service (listen-only monitors: cold, pre-loaded, joining late). Every emitted packet is decoded "
                 "with the harness' own OER coder: the clause 7.1 profile oracle (signer choice against the 1 s rule / pending "
                 "request, header fields, inlineP2pcdRequest contents, generationTime, payload) and the acceptance oracle "
                 "(accepted at once when it carries the certificate or the ticket is known, else after the request exchange) "
@@ -602,6 +652,9 @@ def run(ctx):
     # audit round
     multi_requester(ctx, [ctx.rng.choice([0, 60, 130])] if quick else list(range(0, 1000, 70)), ["JK", "KJ"])
     two_authorities(ctx, [0, 170] if quick else list(range(0, 1200, 100)))
+    lo_phases = [0, 250, 600, 999, 1001, 1249]
+    listen_only_receivers(ctx, [ctx.rng.choice(lo_phases), ctx.rng.choice(lo_phases) + 13] if quick
+                          else lo_phases + list(range(40, 1300, 180)))
     pp = [BIG_PSIDS[:3], BIG_PSIDS[3:6], BIG_PSIDS[6:]]
     positions_psids_ssp(ctx, POSITIONS[:3] if quick else POSITIONS, pp)
     validity_start(ctx)
